@@ -308,8 +308,8 @@ def gen_case(seed, k):
 
 
 def plan(tier, seed):
-	n_models = 32 if tier == "quick" else 400
-	per = 2 if tier == "quick" else 8
+	n_models = 32 if tier == "quick" else 3000
+	per = 2 if tier == "quick" else 30
 	return [{"cls": "model", "k0": k, "k1": min(n_models, k + per),
 		"seed": seed, "weight": per} for k in range(0, n_models, per)]
 
